@@ -19,6 +19,7 @@ for X in A B; do Y=$X; [ -n "${ROUND2:-}" ] && { [ $X = A ] && Y=C || Y=D; }
   [ "${ROUND:-}" = 7 ] && { [ $X = A ] && Y=M || Y=N; }
   [ "${ROUND:-}" = 8 ] && { [ $X = A ] && Y=O || Y=P; }
   [ "${ROUND:-}" = 9 ] && { [ $X = A ] && Y=Q || Y=R; }
+  [ "${ROUND:-}" = 10 ] && { [ $X = A ] && Y=S || Y=T; }
   D="$SRC/out/$X"; [ -f "$D/patch.diff" ] || continue
   OUT=/verif/seeded/$ID-$Y; LOG=$(mktemp); PATCH=$(mktemp)
   git checkout -q -- . ; rm -f tests/demo.rs
